@@ -55,6 +55,12 @@ def run(ctx: Ctx, aspect="verdict"):
             judge_rule_stream(ctx, s, evaluate(ctx, batch), aspect)
             done += len(batch)
         s.finish()
+    # one rule object applied to two architectures (regex specifications resolved per architecture)
+    from ..rules_common import reuse_stream
+
+    s = Stream(ctx, "re-used rule objects: second application vs a fresh rule object")
+    reuse_stream(ctx, s, ctx.size(1500, 20000))
+    s.finish()
     # non-strict rules: outside the oracle, compared with the model for information (drift)
     s = Stream(ctx, "random-nonstrict(model only)")
     judge_rule_stream(ctx, s, evaluate(ctx, random_cases(ctx.rng("ns"), ctx.size(3000, 30000), strict=False)), aspect)
